@@ -150,7 +150,18 @@ pub fn child_main(path: &str, perm: u64) {
     let big = v.get("big").is_some();
     let queries = big_queries(&v);
     let r = std::panic::catch_unwind(std::panic::AssertUnwindSafe(|| {
-        let db = Database::new(state.clone(), true, options.clone());
+        // "inserted" variants: the library is not imported at once but built note by note, in the
+        // permuted order, by `insert_document` on an empty database (what a server does with notes
+        // that are created one after the other); everything it answers must be what the import answers
+        let db = if std::env::var("VERIF_C16_INSERT").is_ok() && !big {
+            let mut db = Database::new(HashMap::new(), true, options.clone());
+            for (n, t) in &notes {
+                db.insert_document(Key::name(n), t.clone());
+            }
+            db
+        } else {
+            Database::new(state.clone(), true, options.clone())
+        };
         if big {
             // plain copy for the parent's diagnostic: `BIG <paths>` then one `BIG query|key|text` per hit
             println!("BIG {}", db.graph().paths().len());
@@ -188,8 +199,10 @@ pub fn execute(v: &Value) -> String {
     for var in v["variants"].as_array().unwrap() {
         let threads = var[0].as_u64().unwrap_or(1);
         let perm = var[1].as_u64().unwrap_or(0);
-        let out = std::process::Command::new("timeout").arg("60").arg(&exe).arg("C16-child").arg(&f).arg(perm.to_string())
-            .env("RAYON_NUM_THREADS", threads.to_string()).output();
+        let mut cmd = std::process::Command::new("timeout");
+        cmd.arg("60").arg(&exe).arg("C16-child").arg(&f).arg(perm.to_string()).env("RAYON_NUM_THREADS", threads.to_string());
+        if var[2].as_u64().unwrap_or(0) == 1 { cmd.env("VERIF_C16_INSERT", "1"); } else { cmd.env_remove("VERIF_C16_INSERT"); }
+        let out = cmd.output();
         let (d, e) = match out {
             Ok(o) => {
                 let so = String::from_utf8_lossy(&o.stdout).to_string();
@@ -246,6 +259,9 @@ pub fn generate(rng: &mut Rng, thorough: bool) -> Vec<Value> {
             variants.push(json!([t, rng.below(1000)]));
         }
         variants.push(json!([1, rng.below(1000)]));
+        // two processes build the library note by note in a permuted order
+        variants.push(json!([1, rng.below(1000), 1]));
+        variants.push(json!([3, rng.below(1000), 1]));
         out.push(json!({"ext": ext, "kind": if i % 2 == 1 { "nested" } else { "flat" },
                         "notes": lib.iter().map(|n| json!([n.name, n.text])).collect::<Vec<_>>(), "variants": variants}));
     }
